@@ -187,6 +187,8 @@ def semBin (op : BinOp) (a b : Value) : PyResult :=
   | .in, x, .set ys => .ok (.bool (containsV ys x))
   | .notin, x, .list ys => .ok (.bool (!containsV ys x))
   | .notin, x, .set ys => .ok (.bool (!containsV ys x))
+  | .in, .str x, .str y => .ok (.bool (containsL x.toList y.toList))
+  | .notin, .str x, .str y => .ok (.bool (!containsL x.toList y.toList))
   | .in, _, _ => tyErr
   | .notin, _, _ => tyErr
   | .eq, a, b | .ne, a, b | .lt, a, b | .le, a, b | .gt, a, b | .ge, a, b => cmpBin op a b
